@@ -426,6 +426,14 @@ def u_visit_annassign(c):
     label, src, evs = ANN_SCHEMAS[k]
     node = parse_stmt(src)
     original = copy.deepcopy(node)
+    if label.startswith("declaration") and not getattr(c, "native", False) and c.choose(2, "declared-before-with-a-tag"):
+        # the variable was declared before with a tag that an active selector names (x: "@Q" ... x: int): what THIS declaration becomes
+        # is decided by this binding's own annotation all the same (the table of annotations and the capture set hold real objects)
+        from contracts.tags import _tags
+        tq = _tags(it)["A"]
+        tr.fields["annotated"]["x"] = tq
+        tr.fields["to_instrument"].append(mk_obj(it, "ptera.selector", "Element", name=[None, "x"][c.choose(2, "generic-or-named")], value=it.models.absent(it),
+                                                 category=tq, capture="x", tags=frozenset({1})))
     st, out = run(it, it.getattr(tr, "visit"), [node])
     c.prove(f"{label}/visitor-does-not-raise", st == "ok")
     if st != "ok":
